@@ -9,3 +9,8 @@ open Rtsp.Ledger.C11
 #print axioms error_closes_after_response
 #print axioms error_close_emitted
 #print axioms no_error_keeps_open
+#print axioms invariant_reachable
+#print axioms ledger_empty_after_close
+#print axioms closed_connection_holds_nothing
+#print axioms session_timeout_releases
+#print axioms teardown_keeps_invariant
